@@ -152,6 +152,25 @@ def st_split(ctx, s):
     return s.split([ctx.args["p"]])
 
 
+def st_split_then_edit_pieces(ctx, s):
+    s.abs                                       # the source's absolute view exists
+    pieces = s.split([ctx.args["p"]])
+    for pc_ in pieces:
+        pc_.transpose(1)
+        pc_.set_channel(3)
+        for m in pc_.messages_rel():
+            if m.message_type == WAIT:
+                m.time = m.time + 1
+
+
+def st_split_bars_then_edit(ctx, s):
+    s.abs
+    bars = Sequence.sequences_split_bars([s], 0, quantise_note_lengths=False)
+    for b_ in bars[0]:
+        b_.sequence.transpose(1)
+        b_.sequence.set_channel(3)
+
+
 def st_scale(ctx, s):
     s.scale(ctx.args["k"], quantise_afterwards=False)
 
@@ -412,7 +431,7 @@ def queries(tier, seed):
     for st in ("pad", "read_abs", "readers", "copy", "add_abs", "normalise", "set_channel", "split", "concatenate", "merge"):
         qs.append(q_step(st, "rest", 10))
     for st in STEPS:
-        heavy = st in ("quantise", "qnl", "quantise_and_normalise", "merge", "cutoff", "transpose_wrap", "scale_half_self_meta", "scale_half")
+        heavy = st in ("quantise", "qnl", "quantise_and_normalise", "merge", "cutoff", "transpose_wrap", "scale_half_self_meta", "scale_half", "split_bars_then_edit")
         # position-sensitive steps (j-th yielded message, insertion index) are only meaningful on the list the caller sees,
         # so contents of step queries have no simultaneous events in non-canonical order (conversion normal form)
         for c in (("n1", "n2g") if tier == "quick" else ("n1", "n2", "n2g", "ill")):
